@@ -19,7 +19,7 @@ DEFAULT = dict(
     RogueHandshake=False, PartialFrames=False,
     Intervals=set(),
     Fire=False, Close=True, Erase=False, IdOps=False, Crash=False, Garbage=False, BadFrames=set(),
-    SendWhileDisc=False, PeerWhileDisc=False, LateFrames=False, CrossVersion=False, Restore=False, Regulate_=False, OptFlips=set(),
+    SendWhileDisc=False, PeerWhileDisc=False, LateFrames=False, CrossVersion=False, Restore=False, Regulate_=False, OptFlips=set(), FreeIdSends=False, Msgs={"m1"},
     # not TLC constants:
     invariants=[],
 )
@@ -50,11 +50,14 @@ SLICES = {
                       Cleans={False}, SPs={True}, ConnSEIs={10}, MaxUsed=3, MaxHeld=1, Close=True),
     # inbound QoS 2: exactly-once delivery (C07)
     "in_qos2": dict(Roles={"client", "server"}, Vers={"v311", "v50"}, AppKinds={"pubrec", "pubcomp"}, PeerKinds={"publish", "pubrel"},
-                    QosSet={2}, InPids={1, 2}, Rcs={0, 128}, OptSets=[set(), {"auto_pub"}], MaxConns=2,
+                    QosSet={2}, InPids={1, 2}, Rcs={0, 16, 128}, OptSets=[set(), {"auto_pub"}], MaxConns=2,
                     Cleans={True, False}, SPs={True, False}, ConnSEIs={NA, 10}, MaxHeld=0),
     "in_qos2_alias": dict(Roles={"server"}, Vers={"v50"}, AppKinds={"pubrec"}, PeerKinds={"publish", "pubrel"},
                           QosSet={2}, InPids={1}, Topics={"t1", ""}, Aliases={0, 1, 2}, AckTAMs={NA, 1}, Rcs={0},
                           OptSets=[set(), {"auto_pub"}], MaxConns=2, Cleans={False}, ConnSEIs={10}, MaxHeld=0),
+    # a CONNECT that does not parse between two connections of a persistent session must not end the session
+    "in_qos2_badconnect": dict(Roles={"server"}, Vers={"v311", "v50"}, AppKinds={"pubrec"}, PeerKinds={"publish", "pubrel"}, QosSet={2}, InPids={1},
+                               BadFrames={"connect"}, PeerWhileDisc=True, OptSets=[set(), {"auto_pub"}], MaxConns=3, Cleans={False}, ConnSEIs={10}, MaxHeld=0),
     # the application answers late: PUBREC / PUBCOMP handed to send() while the connection is down (refused, must change nothing)
     "in_qos2_disc": dict(Roles={"server", "client"}, Vers={"v50"}, AppKinds={"pubrec", "pubcomp"}, PeerKinds={"publish"}, QosSet={2}, InPids={1},
                          Rcs={0, 128}, MaxConns=2, Cleans={False}, SPs={True}, ConnSEIs={10}, MaxHeld=0, SendWhileDisc=True),
@@ -63,7 +66,7 @@ SLICES = {
                          QosSet={2}, InPids={1}, OptSets=[set(), {"auto_pub"}], MaxConns=2, Cleans={False}, SPs={True}, ConnSEIs={10},
                          MaxHeld=0, LateFrames=True),
     "in_rm": dict(Roles={"client", "server"}, Vers={"v50"}, AppKinds={"puback", "pubrec", "pubcomp"}, PeerKinds={"publish", "pubrel"},
-                  QosSet={1, 2}, InPids={1, 2}, Rcs={0, 128}, OptSets=[set(), {"auto_pub"}], MaxConns=1,
+                  QosSet={1, 2}, InPids={1, 2}, Rcs={0, 16, 128}, OptSets=[set(), {"auto_pub"}], MaxConns=1,
                   ConnRMs={NA, 1}, AckRMs={NA, 1}, MaxHeld=0),
     # Receive Maximum next to the other reasons for refusing a packet: a PUBLISH refused for its alias after the quota check,
     # an acknowledgement refused because it does not fit the peer's Maximum Packet Size (5-byte PUBACK/PUBREC, limit 4)
@@ -75,22 +78,30 @@ SLICES = {
     "alias_send": dict(Vers={"v50"}, AppKinds={"publish"}, PeerKinds={"puback"}, QosSet={0, 1}, Topics={"t1", "t2", ""},
                        Aliases={0, 1, 2}, AckTAMs={NA, 0, 1, 2}, AckRMs={NA, 1}, MaxConns=2, Cleans={True}, MaxHeld=1, MaxUsed=2, Regulate_=True),
     "alias_auto": dict(Vers={"v50"}, AppKinds={"publish"}, PeerKinds={"puback"}, QosSet={0, 1}, Topics={"t1", "t2"},
-                       Aliases={0, 1}, AckTAMs={NA, 1, 2}, AckRMs={NA, 1}, AckMPSs={NA, 12}, OptSets=[{"auto_map"}, {"auto_replace"}],
+                       Aliases={0, 1}, AckTAMs={NA, 1, 2}, AckRMs={NA, 1}, AckMPSs={NA, 9, 11, 12}, OptSets=[{"auto_map"}, {"auto_replace"}],
                        MaxConns=2, Cleans={False}, ConnSEIs={10}, SPs={True, False}, MaxHeld=1, MaxUsed=1),
     "alias_srv": dict(Roles={"server"}, Vers={"v50"}, AppKinds={"publish"}, PeerKinds={"publish"}, QosSet={0}, Topics={"t1", "t2", ""},
                       Aliases={0, 1, 2}, ConnTAMs={NA, 0, 1}, AckTAMs={NA, 0, 2}, OptSets=[set(), {"auto_map"}], MaxConns=2, MaxHeld=0),
+    # a PUBLISH that binds an alias while the handshake is still running is only STORED: the peer never sees that binding
+    "alias_early": dict(Roles={"server", "client"}, Vers={"v50"}, AppKinds={"publish"}, PeerKinds={"puback"}, QosSet={1}, Topics={"t1", ""},
+                        Aliases={0, 1}, ConnTAMs={1}, AckTAMs={1}, ConnSEIs={10}, Cleans={False}, SPs={False}, SendWhileDisc=True,
+                        MaxConns=1, MaxHeld=1, MaxUsed=2),
     # three topics compete for two aliases: which alias is recycled depends on the least-recently-USED order
     "alias_lru": dict(Vers={"v50"}, AppKinds={"publish"}, PeerKinds=set(), QosSet={0}, Topics={"t1", "t2", "t3", ""}, Aliases={0, 1, 2},
                       AckTAMs={2}, OptSets=[{"auto_map"}, {"auto_replace"}, set()], MaxConns=1, MaxHeld=0),
     # an alias (re)bound by a QoS 2 retransmission that is not delivered again still counts
     "alias_dup": dict(Roles={"server"}, Vers={"v50"}, AppKinds=set(), PeerKinds={"publish"}, QosSet={0, 2}, InPids={1}, Topics={"t1", "t2", ""},
                       Aliases={0, 1}, AckTAMs={1}, OptSets=[{"auto_pub"}], MaxConns=2, Cleans={False}, ConnSEIs={10}, MaxHeld=0),
+    # an automatically aliased PUBLISH is one byte LONGER than the original when the topic is shorter than the alias property:
+    # registration 10 bytes, later publish 11 bytes = the limit, aliased form 12 bytes
+    "alias_mps": dict(Vers={"v50"}, AppKinds={"publish"}, PeerKinds=set(), QosSet={0}, Topics={"t1"}, Aliases={0, 1}, Msgs={"", "m4xx"},
+                      AckTAMs={1}, AckMPSs={11}, OptSets=[{"auto_replace"}, {"auto_map"}], MaxConns=1, MaxHeld=0),
     # Maximum Packet Size (C14)
     "mps": dict(Vers={"v50"}, AppKinds={"publish", "subscribe", "pingreq", "disconnect"}, PeerKinds={"publish", "puback", "suback"},
                 QosSet={0, 1}, Aliases={0, 1}, AckTAMs={NA, 1}, AckMPSs={NA, 2, 3, 10, 11, 13}, ConnMPSs={NA, 10, 11},
                 OptSets=[set(), {"auto_pub"}, {"auto_map"}], MaxConns=1, Fire=True, KAs={0, 10}),
     "mps_resume": dict(Roles={"client", "server"}, Vers={"v50"}, AppKinds={"publish"}, PeerKinds={"puback", "pubrec", "pubcomp"}, QosSet={1, 2},
-                       AckMPSs={NA, 3, 10, 11}, ConnMPSs={NA, 3, 10, 11}, OptSets=[{"auto_pub"}], MaxConns=2, Cleans={False},
+                       AckMPSs={NA, 3, 10, 11}, ConnMPSs={NA, 3, 10, 11}, AckRMs={NA, 2}, OptSets=[{"auto_pub"}], MaxConns=2, Cleans={False},
                        ConnSEIs={10}, SPs={True}, ExtraPids={1, 9}),
     # keep-alive timers (C15, C19)
     "timers_c": dict(Vers={"v311", "v50"}, AppKinds={"pingreq", "publish", "disconnect"}, PeerKinds={"pingresp", "publish", "disconnect"},
@@ -103,6 +114,15 @@ SLICES = {
     "timers_s_all": dict(Roles={"server"}, Vers={"v311", "v50"}, AppKinds={"pubrec", "pubcomp"},
                          PeerKinds={"publish", "pubrel", "subscribe", "unsubscribe", "pingreq", "auth"}, QosSet={1, 2}, InPids={1},
                          KAs={10}, OptSets=[set(), {"auto_pub"}], Fire=True, MaxConns=1, MaxHeld=0),
+    # an erased (expired) PUBLISH whose identifier is used again while the peer's late acknowledgements still arrive
+    "erase_reuse": dict(Vers={"v311", "v50"}, AppKinds={"publish", "subscribe"}, PeerKinds={"puback", "pubrec", "pubcomp", "suback"}, QosSet={1, 2},
+                        OptSets=[{"auto_pub"}], Erase=True, ExtraPids={1}, MaxConns=1, Cleans={False}, ConnSEIs={10}, MaxHeld=1, MaxUsed=1),
+    # QoS>0 PUBLISH with an identifier that was never acquired, also while the send quota is exhausted
+    "free_id": dict(Vers={"v311", "v50"}, AppKinds={"publish"}, PeerKinds={"puback"}, QosSet={1}, AckRMs={NA, 1}, ExtraPids={7},
+                    FreeIdSends=True, MaxConns=1, MaxHeld=1, MaxUsed=1),
+    # an Any-role endpoint that is a server on one connection and a client on the next (and the other way round)
+    "timers_any": dict(Roles={"any"}, Vers={"v311", "v50"}, AppKinds={"publish", "pingreq"}, PeerKinds={"publish", "pingreq", "pingresp"}, QosSet={0},
+                       KAs={0, 10}, SKAs={NA, 5}, Fire=True, MaxConns=2, MaxHeld=0),
     # SUBSCRIBE and UNSUBSCRIBE in flight together, acknowledged by matching, crossed and unknown SUBACK / UNSUBACK
     "subs": dict(Vers={"v311", "v50"}, AppKinds={"subscribe", "unsubscribe"}, PeerKinds={"suback", "unsuback"}, ExtraPids={9},
                  MaxHeld=1, MaxUsed=2, MaxConns=2, Cleans={True, False}, SPs={True, False}, ConnSEIs={NA, 10}),
@@ -152,7 +172,7 @@ SLICES = {
                     Cleans={False}, ConnSEIs={NA, 10}, SPs={False}, MaxConns=2, RespTimeouts={0, 3}, Fire=True, MaxUsed=1),
     # session state across connections: persistent first session, then every way of starting the next one
     "reuse_sess": dict(Roles={"client"}, Vers={"v311", "v50"}, AppKinds={"publish"}, PeerKinds={"puback", "publish"}, QosSet={1, 2},
-                       Cleans={False, True}, ConnSEIs={NA, 10}, SPs={False, True}, MaxConns=2, MaxUsed=1, InPids={1}),
+                       Cleans={False, True}, ConnSEIs={NA, 10}, SPs={False, True}, ConnRMs={NA, 1}, MaxConns=2, MaxUsed=1, InPids={1}),
     "reuse_s": dict(Roles={"server", "any"}, Vers={"v311", "v50"}, AppKinds={"publish", "disconnect"},
                     PeerKinds={"publish", "subscribe", "disconnect"}, QosSet={2}, Aliases={0, 1},
                     KAs={0, 10}, SKAs={NA, 5}, ConnRMs={NA, 1}, ConnTAMs={NA, 1}, ConnMPSs={NA, 13}, AckTAMs={NA, 1},
